@@ -149,6 +149,12 @@ impl Engine {
 }
 
 pub fn install(pers: Box<dyn Personality>, policy: Policy, seed: u64, indirect_ok: bool) {
+    // how late a "late" device is varies: from almost immediately to after the driver has gone
+    // round its loop many times (a driver that queues as much as it can before the device moves)
+    let policy = match policy {
+        Policy::Late(_) => Policy::Late([1, 5, 14, 40][(seed as usize / 7) % 4]),
+        p => p,
+    };
     let eng = Engine {
         core: EngineCore { rng: SmallRng::seed_from_u64(seed), indirect_ok, held: vec![], complete_in_order: true, hold_only: None, auto_ooo: false },
         policy,
